@@ -1,46 +1,54 @@
 #!/usr/bin/env python3
-"""Run the checks against a seeded breaking change kept in /verif/seeded/<name>/patch.diff.
-usage: seedcheck.py <name> [<ID> ...]     (default ID = the property named in meta.json, or the prefix of <name>)
-Applies the patch to /repo (which must be clean), runs ./check <ID> --no-evidence for each ID, reverts, records the
-outcome in /verif/seeded/<name>/result.json. Never leaves /repo modified."""
-import json, os, subprocess, sys, time
+"""Run the checks against a seeded breaking change kept in /verif/seeded/<name>/<patch> (default patch.diff).
+usage: seedcheck.py <name>[:<patchfile>] [<ID> ...]   (default ID = the property named in meta.json, or the prefix of <name>)
+The patch is applied to a scratch worktree of /repo's HEAD under /tmp (removed afterwards) and the quick check of each
+ID is run against that tree (VERIF_REPO): /repo itself is never touched, so this can run beside anything else.
+The outcome is recorded in /verif/seeded/<name>/result.json (result-<patch>.json for a named patch)."""
+import json, os, subprocess, sys, time, tempfile, shutil
 
-name = sys.argv[1]
+arg = sys.argv[1]
+name, _, patch = arg.partition(':')
+patch = patch or 'patch.diff'
 d = os.path.join('/verif/seeded', name)
 meta = {}
 if os.path.exists(os.path.join(d, 'meta.json')):
     meta = json.load(open(os.path.join(d, 'meta.json')))
 ids = sys.argv[2:] or [meta.get('property', name.split('-')[0])]
-st = subprocess.run(['git', '-C', '/repo', 'status', '--porcelain'], stdout=subprocess.PIPE, text=True).stdout.strip()
-if st:
-    print('REPO NOT CLEAN:\n' + st)
-    sys.exit(3)
-r = subprocess.run(['git', '-C', '/repo', 'apply', '--whitespace=nowarn', os.path.join(d, 'patch.diff')], stdout=subprocess.PIPE, stderr=subprocess.STDOUT, text=True)
+wt = tempfile.mkdtemp(prefix='verif-seed-')
+os.rmdir(wt)
+r = subprocess.run(['git', '-C', '/repo', 'worktree', 'add', '--detach', wt, 'HEAD'], stdout=subprocess.PIPE, stderr=subprocess.STDOUT, text=True)
 if r.returncode != 0:
-    print('PATCH DOES NOT APPLY:\n' + r.stdout)
+    print('CANNOT CREATE WORKTREE:\n' + r.stdout)
     sys.exit(3)
 results = {}
 try:
+    r = subprocess.run(['git', '-C', wt, 'apply', '--whitespace=nowarn', os.path.join(d, patch)], stdout=subprocess.PIPE, stderr=subprocess.STDOUT, text=True)
+    if r.returncode != 0:
+        print('PATCH DOES NOT APPLY:\n' + r.stdout)
+        sys.exit(3)
+    env = dict(os.environ, VERIF_REPO=wt)
     for pid in ids:
         t = time.time()
-        r = subprocess.run(['/verif/check', pid, '--no-evidence'], stdout=subprocess.PIPE, stderr=subprocess.STDOUT, text=True)
+        r = subprocess.run(['/verif/check', pid, '--no-evidence'], stdout=subprocess.PIPE, stderr=subprocess.STDOUT, text=True, env=env)
         lines = r.stdout.splitlines()
         viol = [l for l in lines if l.startswith('VIOLATION')]
         why = [l for l in lines if l.startswith('#   ')][:3]
         results[pid] = {'exit': r.returncode, 'detected': bool(r.returncode == 1 and viol), 'violations': len(viol), 'first': [w[4:300] for w in why], 'wall_s': round(time.time() - t, 1)}
-        print(pid, 'DETECTED' if results[pid]['detected'] else 'MISSED(rc=%d)' % r.returncode, '%.0fs' % (time.time() - t))
+        print(name + (':' + patch if patch != 'patch.diff' else ''), pid, 'DETECTED' if results[pid]['detected'] else 'MISSED(rc=%d)' % r.returncode, '%.0fs' % (time.time() - t))
         for w in why[:2]:
             print('   ', w[:260])
         if r.returncode == 2:
             for l in lines:
                 if l.startswith('HARNESS'):
                     print('   ', l[:260])
-        rd = os.path.join('/verif/replays', pid.lower())
-        if os.path.isdir(rd):
-            for f in os.listdir(rd):
-                if f.startswith('found-'):
-                    os.remove(os.path.join(rd, f))
+        # found-* replay files of a seeded run are not findings
+        for l in viol:
+            f = l.split('replay=')[-1].strip()
+            if os.path.basename(f).startswith('found-') and os.path.exists(f):
+                os.remove(f)
 finally:
-    subprocess.run(['git', '-C', '/repo', 'checkout', '--', '.'])
-    subprocess.run(['git', '-C', '/repo', 'clean', '-fdq', 'utils'])
-json.dump(results, open(os.path.join(d, 'result.json'), 'w'), indent=1)
+    subprocess.run(['git', '-C', '/repo', 'worktree', 'remove', '--force', wt], stdout=subprocess.DEVNULL, stderr=subprocess.DEVNULL)
+    shutil.rmtree(wt, ignore_errors=True)
+    subprocess.run(['git', '-C', '/repo', 'worktree', 'prune'])
+out = 'result.json' if patch == 'patch.diff' else 'result-' + patch.replace('.diff', '') + '.json'
+json.dump(results, open(os.path.join(d, out), 'w'), indent=1)
